@@ -71,6 +71,9 @@ pub fn c14(args: &Args) {
         ("reject-run-of-2", Box::new(|c: &[u32]| c.windows(2).any(|w| w[0] >= 61445 && w[1] >= 61445))),
         ("many-rejects", Box::new(|c: &[u32]| c.iter().filter(|&&t| t >= 61445).count() >= 50)),
         ("few-rejects", Box::new(|c: &[u32]| c.iter().filter(|&&t| t >= 61445).count() <= 18)),
+        // more than a tenth of the chunks rejected: the stream is consumed far beyond n * 65536/61445 chunks
+        // (an implementation that squeezes a fixed-size first buffer must continue the SAME stream afterwards)
+        ("reject-over-tenth", Box::new(|c: &[u32]| 10 * c.iter().filter(|&&t| t >= 61445).count() > c.len() - c.iter().filter(|&&t| t >= 61445).count())),
     ];
     let base: u64 = rng.gen();
     for (tag, pred) in wants.iter() {
@@ -78,7 +81,7 @@ pub fn c14(args: &Args) {
             let mut found = 0;
             let per = if thorough { 3 } else { 1 };
             let mut ctr = 0u64;
-            while found < per && ctr < 3_000_000 {
+            while found < per && ctr < 400_000 {
                 let s = format!("{}-{}-{}", tag, base, ctr).into_bytes();
                 ctr += 1;
                 if pred(&consumed_chunks(&s, n)) {
